@@ -647,7 +647,7 @@ pub fn run(out: &mut Out, seed: u64, thorough: bool, replay: Option<&str>) {
         net.s.shutdown();
     }
     // ---- random histories
-    for round in 0..(if thorough { 24 } else { 5 }) {
+    for round in 0..(if thorough { 120 } else { 5 }) {
         t0 += 100_000_000_000_000;
         random_round(out, &mut rng, t0, round);
     }
